@@ -73,6 +73,9 @@ def trace {σ : Type} (X : Exec σ) (p : List Item) : Nat → Cfg σ → List (E
 /-- label names are pairwise distinct (what every assembler demands) -/
 def LabelsDistinct (p : List Item) : Prop := (p.filterMap lab).Nodup
 
+instance (p : List Item) : Decidable (LabelsDistinct p) := by
+  unfold LabelsDistinct; exact inferInstance
+
 /-- `q` simulates `p` under the index map `m` (program counters of `p` ↦ program counters of `q`):
     every finite run of `p` is matched by a run of `q` that is not longer, executes the same
     `other` items with the same states, and ends at the corresponding place;
